@@ -174,14 +174,21 @@ func build4(req *dhcpv4.DHCPv4, k RK, serial, phase int) ([]byte, replyMeta) {
 		dhcpv4.WithGeneric(dhcpv4.GenericOptionCode(serialOpt4), []byte{byte(serial)}))
 	if srv != 0 {
 		p.UpdateOption(dhcpv4.OptServerIdentifier(srvIP[srv]))
-		p.ServerIPAddr = srvIP[srv]
+		p.ServerIPAddr = net.IPv4(10, 0, 0, 69).To4() // siaddr is the boot server (next-server), not the DHCP server
 	}
 	if k == RWrongXid {
 		p.TransactionID[0] ^= 0xff
 		meta.valid = false
 	}
 	if k == RWrongHW {
+		// "another hardware address": a different one / none at all (hlen 0) / a proper prefix of the client's
 		p.ClientHWAddr = otherMAC
+		switch serial % 3 {
+		case 1:
+			p.ClientHWAddr = net.HardwareAddr{}
+		case 2:
+			p.ClientHWAddr = append(net.HardwareAddr{}, clientMAC[:3]...)
+		}
 		meta.valid = false
 	}
 	meta.typ, meta.server = int(mt), srv
@@ -851,6 +858,19 @@ func c13Scenarios(tier string) []Scenario {
 	for _, p1 := range rkSeqs(a6, 3) {
 		add(&ExScenario{Op: "solicit", P1: p1})
 		add(&ExScenario{Op: "request6", P1: p1})
+	}
+	// bursts: the completing message sits behind k messages with the right id that complete nothing
+	for _, k := range []int{4, 5, 6, 7, 12} {
+		for _, ign := range []RK{ROther6, RAdvNoCID} {
+			var pre []RK
+			for i := 0; i < k; i++ {
+				pre = append(pre, ign)
+			}
+			add(&ExScenario{Op: "solicit", P1: append(append([]RK{}, pre...), RAdv1), Bound: 1})
+			add(&ExScenario{Op: "request6", P1: append(append([]RK{}, pre...), RReply), Bound: 1})
+			add(&ExScenario{Op: "rapid", P1: append(append([]RK{}, pre...), RReplyRapid), Bound: 1})
+			add(&ExScenario{Op: "rapid", P1: []RK{RAdv1}, P2: append(append([]RK{}, pre...), RReply), Bound: 1})
+		}
 	}
 	for _, n := range szs {
 		add(&ExScenario{Op: "solicit", P1: []RK{RAdv1}, Size: n, Bound: 1})
